@@ -60,6 +60,7 @@ type Exec struct {
 	resultNames   []string
 	euclid        map[string]*euclidEntry
 	pow2Global    map[string]Term // shift amount (no bound variable) -> its power-of-two constant, defined by a global axiom
+	unbound       []string        // postconditions that could not be bound to the (changed) code
 	euclidOrder   []*euclidEntry
 	footprint     []fpItem
 	pure          *pureCtx
@@ -1286,13 +1287,44 @@ func (ex *Exec) doReturn(st *State, r *ssa.Return) {
 		if name == "" {
 			name = fmt.Sprintf("ensures.%d", i)
 		}
-		st.oblige(ex.obName(name), "ensures", env.evalBool(e.Expr), e.Src)
+		g, ok := ex.evalEnsures(env, name, e)
+		if !ok {
+			continue
+		}
+		st.oblige(ex.obName(name), "ensures", g, e.Src)
 	}
 	if ex.spec.Panics != nil {
 		// panics is an iff: a normal return implies the panic condition did not hold on entry
 		g := tNot(ex.entryEnv(st).evalBool(ex.spec.Panics))
 		st.oblige(ex.obName("panics.iff"), "panics", g, "normal return only when !("+ex.spec.Panics.String()+")")
 	}
+}
+
+// evalEnsures evaluates a postcondition at a return. A clause that names something the (changed) code no longer has - a
+// local variable, the witness of a call that is gone - cannot be bound: it is skipped and remembered, the function is
+// reported as UNDECIDED for that clause, and the remaining obligations still decide (a change that also breaks the
+// property then fails one of them and is reported as a violation rather than as 'contract unbound').
+func (ex *Exec) evalEnsures(env *Env, name string, e Clause) (g Term, ok bool) {
+	defer func() {
+		if r := recover(); r != nil {
+			if se, isSpec := r.(specErr); isSpec && strings.HasPrefix(se.msg, "unknown identifier") {
+				msg := fmt.Sprintf("postcondition %s could not be bound (%s)", name, se.msg)
+				dup := false
+				for _, u := range ex.unbound {
+					if u == msg {
+						dup = true
+					}
+				}
+				if !dup {
+					ex.unbound = append(ex.unbound, msg)
+				}
+				g, ok = tTrue, false
+				return
+			}
+			panic(r)
+		}
+	}()
+	return env.evalBool(e.Expr), true
 }
 
 // initGhosts creates the ghost globals declared in the contract file.
